@@ -1,15 +1,20 @@
 """C20 correspondence: StopOnPlateau / ReduceToBason and the driver loops vs Model/Controller.v.
 
 Exact route.  Transition level: the real object is put into every abstract state of a grid
-(steps x patience_count x continual x last) and stepped with every input class; traces with
-resets; recorded loss streams of the real driver loops are replayed through the model loop."""
+(steps x patience_count x continual x last) and stepped with every input class (incl. batches whose
+members differ in sign / history); traces with resets; recorded loss streams of the real driver loops -
+in several call forms on one controller object - are replayed through the model loop."""
 import itertools
 from ..common import *
 
 RULE = ('transition = (config, controller state, input class) -> next state, compared field by field with the model; '
         'exhaustive over the state grid steps 0..7 x patience_count 0..5 x continual x last in {inf, 4} x input classes '
         '{decrease>=thr, boundary, decrease<thr, equal, increase, below-tol, zero, batched mixes, rejected} x configs (steps 1..6, patience 1..4); '
-        'non-trivial = every transition (distinct by tuple); traces = random long sequences with resets and real driver loops')
+        'sign / layout classes of batched losses on the boundary states (members of different sign and history, exact plateaus of negative members next to '
+        'positive ones above tol, zeros, 2-d batches, float32/float64/python float), each also judged directly with the documented conditions; '
+        'non-trivial = every transition (distinct by tuple); traces = random long sequences with resets (batches with negative members, whole-batch plateaus) '
+        'and real driver loops in several call forms on one controller (second call on a stopped controller, user loop then driver, forced grid state; '
+        'ICP / MPC called twice with a used stepper), each judged directly: no step while continual() is False, loop ends at the first documented cause')
 
 
 def b(x):
@@ -34,7 +39,7 @@ def run(ctx):
     if not ctx.thorough:
         cfgs = [c for c in cfgs if (c[0] + c[1]) % 2 == 0 or c[0] in (1, 6)]
     losses = [[1.0], [2.0], [3.0], [3.5], [4.0], [6.0], [0.0625], [0.0], [2.0, 6.0], [1.0, 2.0], [0.0625, 0.03125], [0.0625, 3.0], [4.0, 4.0, 4.0]]
-    rt_meta, rt_cases = [], []
+    rt_meta, rt_cases, sg_viol = [], [], []
     for cfg in cfgs:
         for steps in range(0, 8):
             for pc in range(0, 6):
@@ -74,6 +79,36 @@ def run(ctx):
                 rs_cases.append('(%d%%nat, (%d%%Z, %d%%Z, Some %s, %s), (%d%%Z, %d%%Z, %s, %s))' % (
                     len(rs_meta) - 1, steps, pc, qlist([4.0]), b(cont), st.steps, st.patience_count, olist(lastv), b(st.continual())))
     files.append(('rtbR', hdr + 'Eval vm_compute in rtb_reset_bad %s.\n' % coq_list(rs_cases)))
+    # ------------------------------------------------------------------ ReduceToBason: sign / layout classes of batched losses
+    # (last, loss) pairs whose members have different signs, different previous values, exact plateaus of negative members next
+    # to positive members above tol, zeros, 2-d batches, float32 / float64, python floats; on the boundary states of the grid
+    sg_meta, sg_cases = [], []
+    for cfg in cfgs:
+        sgrid = sorted({0, cfg[0] - 1, cfg[0]} if ctx.thorough else {0, cfg[0] - 1})
+        pgrid = sorted({0, cfg[1] - 1, cfg[1]} if ctx.thorough else {0, cfg[1] - 1})
+        for steps in sgrid:
+            for pc in pgrid:
+                for cont in (True, False):
+                    for (lastv, loss, shape) in SIGN_PAIRS:
+                        dtn = rng.choice(['f32', 'f64'])
+                        m = dict(kind='rtb-trans', cfg=cfg, state=(steps, pc, lastv, cont), loss=loss, dtype=dtn, shape=shape,
+                                 pyfloat=(len(loss) == 1 and rng.random() < 0.3))
+                        after = rtb_apply(torch, ReduceToBason, m)
+                        m['after'] = after
+                        ctx.case(('rtb-sign', cfg, steps, pc, cont, tuple(lastv or ()), tuple(loss), shape, dtn), branch='rtb-transition-sign')
+                        sg_meta.append(m)
+                        sg_cases.append('(%d%%nat, (%d, %d, %s, %s)%%Z, (%d%%Z, %d%%Z, %s, %s), %s, (%d%%Z, %d%%Z, %s, %s))' % (
+                            len(sg_meta) - 1, cfg[0], cfg[1], qlit(cfg[2]), qlit(cfg[3]), steps, pc, olist(lastv), b(cont), qlist(loss),
+                            after[0], after[1], olist(after[2]), b(after[3])))
+                        # the documented conditions, directly (exact rationals), on every one of these
+                        exp = doc_rtb(cfg, (steps, pc, lastv, cont), loss)
+                        if after != exp and len(sg_viol) < 3:
+                            sg_viol.append(m)
+    for si, sh in enumerate(shard(sg_cases, 500)):
+        files.append(('rtbS_%03d' % si, hdr + 'Eval vm_compute in rtb_trans_bad %s.\n' % coq_list(sh)))
+    ctx.samples.append(sg_meta[len(sg_meta) // 2])
+    for m in sg_viol:
+        ctx.violation('controller:rtb-trans', replay(ctx, m) or 'ReduceToBason transition differs from the documented conditions', m)
     # ------------------------------------------------------------------ StopOnPlateau transitions
     class M(torch.nn.Module):
         def __init__(self):
@@ -118,7 +153,13 @@ def run(ctx):
         cfg = (rng.randint(1, 40), rng.randint(1, 6), rng.choice([1.0, 0.25, 0.001, 0.5]), rng.choice([0.125, 1e-5, 2.0]))
         st = ReduceToBason(steps=cfg[0], patience=cfg[1], decreasing=cfg[2], tol=cfg[3])
         nb = rng.choice([1, 1, 1, 2, 3])
-        cur = [rng.choice([8.0, 16.0, 100.0]) for _ in range(nb)]
+        # sign of every batch member (fixed along the trace): negative members (costs with linear terms) next to positive ones
+        sgn = [1.0] * nb
+        if (nb > 1 and t % 2 == 1) or (nb == 1 and rng.random() < 0.15):
+            sgn[rng.randrange(nb)] = -1.0
+            if nb > 2 and rng.random() < 0.3:
+                sgn[rng.randrange(nb)] = -1.0
+        cur = [g * rng.choice([8.0, 16.0, 100.0, 2.0, 0.375]) for g in sgn]
         ops, trace = [], []
         for k in range(rng.randint(5, 60)):
             if rng.random() < 0.07:
@@ -126,7 +167,11 @@ def run(ctx):
                 ops.append(None)
             else:
                 mode = rng.random()
-                cur = [max(0.0, c * rng.choice([0.5, 0.75, 1.0, 1.0, 1.25, 0.999, 0.03125]) if mode < 0.8 else dy_pos(rng)) for c in cur]
+                if mode < 0.15:
+                    pass                                   # exact plateau of the whole batch
+                else:
+                    cur = [(c * rng.choice([0.5, 0.75, 1.0, 1.0, 1.25, 0.999, 0.03125]) if mode < 0.85 else g * dy_pos(rng)) + 0.0 for c, g in zip(cur, sgn)]
+                    cur = [0.0 if c == 0 else c for c in cur]   # no negative zero (x/-0.0 is not modelled)
                 loss = list(cur)
                 # a python float is turned into a float32 tensor by step(): only pass one when that is exact
                 f32_exact = float(torch.tensor(loss[0])) == loss[0]
@@ -145,116 +190,88 @@ def run(ctx):
         files.append(('rtbTr_%03d' % si, hdr + 'Eval vm_compute in rtb_trace_bad %s.\n' % coq_list(sh)))
     ctx.samples.append(dict(tr_meta[0], ops=tr_meta[0]['ops'][:6], trace=tr_meta[0]['trace'][:6]))
     # ------------------------------------------------------------------ real driver loops
+    # Every driver is exercised in several call forms on ONE controller object: a single call, a second call on the controller
+    # the first call left stopped, a user loop (partly or until the stop) followed by the driver, a controller forced into a
+    # grid state (incl. stopped) before the call.  The loss stream seen by the controller over the whole scenario is replayed
+    # through the model loop from the same initial state, and judged directly with the documented conditions (judge_*).
     dr_cases_rtb, dr_cases_sop, dr_meta_rtb, dr_meta_sop = [], [], [], []
-    # scheduler.optimize with a real LM
-    class Quad(torch.nn.Module):
-        def __init__(self, x0):
-            super().__init__()
-            self.x = torch.nn.Parameter(torch.tensor(x0, dtype=torch.float64))
-
-        def forward(self, inp):
-            return (self.x ** 2 - inp)
-    for t in range(ctx.scale(12, 60)):
+    reported = set()
+    nopt = ctx.scale(42, 160)
+    for t in range(nopt):
         cfg = (rng.randint(1, 8), rng.randint(1, 4), rng.choice([1e-3, 0.25, 1e-9]))
-        model = Quad([rng.uniform(0.5, 3.0), rng.uniform(-2, 2)])
-        opt2 = pp.optim.LM(model, strategy=pp.optim.strategy.Constant(damping=rng.choice([1e-6, 1e-2, 10.0])), reject=rng.choice([0, 1, 16]))
-        sch = StopOnPlateau(opt2, steps=cfg[0], patience=cfg[1], decreasing=cfg[2])
-        rec = []
-        orig = sch.step
-
-        def stepw(loss, sch=sch, orig=orig, rec=rec, opt2=opt2):
-            rec.append((float(opt2.last), float(opt2.loss), int(opt2.reject_count)))
-            return orig(loss)
-        sch.step = stepw
-        calls = [0]
-        ostep = opt2.step
-
-        def cstep(*a, calls=calls, ostep=ostep, **k):
-            calls[0] += 1
-            return ostep(*a, **k)
-        opt2.step = cstep
-        sch.optimize(input=torch.tensor([1.0, 2.0], dtype=torch.float64))
-        n = len(rec)
-        if calls[0] != n or n > max(1, cfg[0]):
-            ctx.violation('optimize-exceeds-budget', 'scheduler.optimize made %d optimizer steps with steps=%d' % (calls[0], cfg[0]), dict(kind='optimize', cfg=cfg))
-        ctx.case(('optimize', t, cfg, n), branch='driver-optimize')
-        ctx.traces += 1
-        dr_meta_sop.append(dict(kind='optimize', cfg=cfg, stream=rec, n=n))
-        dr_cases_sop.append('(%d%%nat, (%d%%Z, %d%%Z, %s), %s, %d%%nat)' % (t, cfg[0], cfg[1], qlit(cfg[2]),
-                            coq_list('(%s, %s, %d%%nat)' % (qlit(a), qlit(c), r) for a, c, r in rec), n))
-    files.append(('sopD', hdr + 'Eval vm_compute in sop_drive_bad %s.\n' % coq_list(dr_cases_sop)))
-    # ICP and MPC with a recording stepper
-    class Rec(ReduceToBason):
-        def __init__(self, *a, **k):
-            super().__init__(*a, **k)
-            self.rec, self.nsteps = [], 0
-
-        def step(self, loss):
-            self.rec.append([float(v) for v in torch.as_tensor(loss).reshape(-1).tolist()])
-            self.nsteps += 1
-            return super().step(loss)
-
-        def reset(self):
-            self.rec, self.nsteps = [], 0
-            return super().reset()
-    k = 0
-    for t in range(ctx.scale(10, 40)):
-        steps, pat = rng.randint(1, 7), rng.randint(1, 4)
-        dec, tol = rng.choice([1e-3, 0.25]), rng.choice([1e-5, 1e-2])
-        g = torch.Generator().manual_seed(ctx.seed * 1000 + t)
-        src = torch.randn(1, 30, 3, generator=g, dtype=torch.float64)
-        T = pp.randn_SE3(1, sigma=0.05, dtype=torch.float64, generator=g) if False else pp.SE3(torch.tensor([[0.05, -0.02, 0.03, 0.0, 0.0, 0.01, 1.0]], dtype=torch.float64))
-        tgt = T.unsqueeze(-2).Act(src)
-        st = Rec(steps=steps, patience=pat, decreasing=dec, tol=tol)
-        icp = pp.module.ICP(stepper=st)
+        init = (0, 0, True)
+        phases = OPT_SCENARIOS[t % len(OPT_SCENARIOS)]
+        if t % 7 == 6:
+            # forced grid state; a stopped one every other time
+            init = (rng.randint(0, 7), rng.randint(0, 5), (t // 7) % 2 == 1)
+        c = dict(kind='optimize', cfg=cfg, init=init, phases=phases, optim=('GN' if t % 3 == 2 else 'LM'),
+                 x0=[rng.uniform(0.5, 3.0), rng.choice([-1, 1]) * rng.uniform(0.25, 2.0)], damping=rng.choice([1e-6, 1e-2, 10.0]), reject=rng.choice([0, 1, 16]))
         try:
-            icp(src, tgt)
+            r = run_optimize_case(pp, torch, c)
+        except Exception as e:
+            ctx.notes.append('optimize scenario %r raised %r' % (c, e))
+            continue
+        c.update(stream=r['stream'], n=r['n'], final=r['final'])
+        why = judge_optimize(c, r)
+        if why and 'optimize' not in reported:
+            reported.add('optimize')
+            ctx.violation('controller:optimize', why, c)
+        ctx.case(('optimize', t, cfg, init, tuple(map(tuple, phases)), r['n']), branch='driver-optimize:' + '+'.join(ph[0] for ph in phases))
+        ctx.traces += 1
+        dr_meta_sop.append(c)
+        dr_cases_sop.append('(%d%%nat, (%d%%Z, %d%%Z, %s), (%d%%Z, %d%%Z, %s), %s, (%d%%nat, %d%%Z, %d%%Z))' % (
+            len(dr_meta_sop) - 1, cfg[0], cfg[1], qlit(cfg[2]), init[0], init[1], b(init[2]),
+            coq_list('(%s, %s, %d%%nat)' % (qlit(a), qlit(l), rj) for a, l, rj in r['stream']), r['n'], r['final'][0], r['final'][1]))
+    files.append(('sopD', hdr + SOP_DRIVE_FROM + 'Eval vm_compute in sop_drive_from_bad %s.\n' % coq_list(dr_cases_sop)))
+    if dr_meta_sop:
+        ctx.samples.append(dr_meta_sop[1 % len(dr_meta_sop)])
+    # ICP and MPC with a recording stepper: two calls per object (the second with other arguments, on the stepper the first call
+    # left stopped); the stepper is sometimes handed over in a used / stopped state
+    for t in range(ctx.scale(10, 40)):
+        c = dict(kind='icp', cfg=(rng.randint(1, 7), rng.randint(1, 4), rng.choice([1e-3, 0.25]), rng.choice([1e-5, 1e-2])),
+                 gseed=ctx.seed * 1000 + t, dirty=[None, (5, 3, False, 0.5), (2, 1, True, 4.0)][t % 3])
+        try:
+            calls = run_icp_case(pp, torch, c)
         except Exception as e:
             ctx.notes.append('ICP raised %r' % (e,))
             continue
-        n = st.nsteps
-        if n > max(1, steps):
-            ctx.violation('icp-exceeds-budget', 'ICP made %d controller steps with steps=%d' % (n, steps), dict(kind='icp', steps=steps, patience=pat, dec=dec, tol=tol, t=t))
-        ctx.case(('icp', t, steps, pat, n), branch='driver-icp')
-        ctx.traces += 1
-        dr_meta_rtb.append(dict(kind='icp', cfg=(steps, pat, dec, tol), stream=st.rec, n=n))
-        dr_cases_rtb.append('(%d%%nat, (%d%%Z, %d%%Z, %s, %s), %s, %d%%nat)' % (k, steps, pat, qlit(dec), qlit(tol), coq_list(qlist(l) for l in st.rec), n))
-        k += 1
+        for ci, (stream, n) in enumerate(calls):
+            m = dict(c, call=ci, stream=stream, n=n)
+            why = judge_rtb_drive(m)
+            if why and 'icp' not in reported:
+                reported.add('icp')
+                ctx.violation('controller:icp', why, m)
+            ctx.case(('icp', t, c['cfg'], ci, n), branch='driver-icp:call%d' % ci)
+            ctx.traces += 1
+            dr_meta_rtb.append(m)
     for t in range(ctx.scale(8, 30)):
-        steps, pat = rng.randint(1, 6), rng.randint(1, 4)
-        dec, tol = rng.choice([1e-3, 0.25]), 1e-9
+        steps = rng.randint(1, 6)
+        # the constructor lowered max_steps by one: the model config is mpc_cfg
+        c = dict(kind='mpc', cfg=(steps - 1, rng.randint(1, 4), rng.choice([1e-3, 0.25]), 1e-9), steps=steps,
+                 gseed=ctx.seed * 77 + t, dirty=[None, (5, 3, False, 0.5), (2, 1, True, 4.0)][(t + 1) % 3])
         try:
-            n_state, n_ctrl, Th = 2, 1, 3
-            g = torch.Generator().manual_seed(ctx.seed * 77 + t)
-            A = torch.eye(n_state, dtype=torch.float64) + 0.1 * torch.randn(n_state, n_state, generator=g, dtype=torch.float64)
-            B = torch.randn(n_state, n_ctrl, generator=g, dtype=torch.float64)
-            C = torch.eye(n_state, dtype=torch.float64)
-            D = torch.zeros(n_state, n_ctrl, dtype=torch.float64)
-            lti = pp.module.LTI(A, B, C, D)
-            Q = torch.tile(torch.eye(n_state + n_ctrl, dtype=torch.float64), (1, Th, 1, 1))
-            p = torch.randn(1, Th, n_state + n_ctrl, generator=g, dtype=torch.float64)
-            st = Rec(steps=steps, patience=pat, decreasing=dec, tol=tol)
-            mpc = pp.module.MPC(lti, Q, p, Th, stepper=st)
-            x0 = torch.randn(1, n_state, generator=g, dtype=torch.float64)
-            mpc(1, x0)
+            calls = run_mpc_case(pp, torch, c)
         except Exception as e:
             ctx.notes.append('MPC raised %r' % (e,))
             continue
-        n = st.nsteps
-        if n > max(1, steps):
-            ctx.violation('mpc-exceeds-budget', 'MPC made %d controller steps with steps=%d' % (n, steps), dict(kind='mpc', steps=steps, patience=pat, t=t))
-        ctx.case(('mpc', t, steps, pat, n), branch='driver-mpc')
-        ctx.traces += 1
-        dr_meta_rtb.append(dict(kind='mpc', cfg=(steps - 1, pat, dec, tol), stream=st.rec, n=n))
-        # the constructor lowered max_steps by one: the model config is mpc_cfg
-        dr_cases_rtb.append('(%d%%nat, (%d%%Z, %d%%Z, %s, %s), %s, %d%%nat)' % (k, steps - 1, pat, qlit(dec), qlit(tol), coq_list(qlist(l) for l in st.rec), n))
-        k += 1
+        for ci, (stream, n) in enumerate(calls):
+            m = dict(c, call=ci, stream=stream, n=n)
+            why = judge_rtb_drive(m)
+            if why and 'mpc' not in reported:
+                reported.add('mpc')
+                ctx.violation('controller:mpc', why, m)
+            ctx.case(('mpc', t, c['cfg'], ci, n), branch='driver-mpc:call%d' % ci)
+            ctx.traces += 1
+            dr_meta_rtb.append(m)
+    for k, m in enumerate(dr_meta_rtb):
+        cfg = m['cfg']
+        dr_cases_rtb.append('(%d%%nat, (%d%%Z, %d%%Z, %s, %s), %s, %d%%nat)' % (k, cfg[0], cfg[1], qlit(cfg[2]), qlit(cfg[3]), coq_list(qlist(l) for l in m['stream']), m['n']))
     files.append(('rtbD', hdr + 'Eval vm_compute in rtb_drive_bad %s.\n' % coq_list(dr_cases_rtb)))
     if dr_meta_rtb:
         ctx.samples.append(dr_meta_rtb[0])
     # ------------------------------------------------------------------ run Coq
     res = run_case_files('C20', files, timeout=900)
-    table = dict(rtbT=rt_meta, rtbR=rs_meta, sopT=so_meta, rtbTr=tr_meta, sopD=dr_meta_sop, rtbD=dr_meta_rtb)
+    table = dict(rtbT=rt_meta, rtbS=sg_meta, rtbR=rs_meta, sopT=so_meta, rtbTr=tr_meta, sopD=dr_meta_sop, rtbD=dr_meta_rtb)
     for name, (rc, out) in sorted(res.items()):
         ev = parse_evals(out)
         if rc != 0 or len(ev) != 1:
@@ -308,6 +325,228 @@ def doc_rtb(cfg, state, loss):
     return (steps, pc, list(loss), cont and not stop)
 
 
+def doc_sop(cfg, state, inp):
+    steps, pc, cont = state
+    la, lo, rj = inp
+    pc2 = pc + 1 if (Fraction(la) - Fraction(lo)) < Fraction(cfg[2]) else 0
+    return (steps + 1, pc2, cont and not (steps + 1 >= cfg[0] or pc2 >= cfg[1] or rj > 0))
+
+
+# (previous losses, losses, tensor shape or None): members of different sign / different history in one batch
+SIGN_PAIRS = [
+    ([-2.0, 4.0], [-2.0, 4.0], None),            # exact plateau, one negative member, the other above tol
+    ([-2.0, 8.0], [-2.0, 4.0], None),            # negative member on a plateau, positive member halves
+    ([-2.0, 4.0], [-4.0, 4.0], None),            # negative member moves away from zero
+    ([-4.0, 4.0], [-2.0, 4.0], None),            # negative member moves towards zero
+    ([-2.0, 4.0], [-2.0, 3.0], None),            # boundary / below threshold decrease of the positive member
+    ([4.0, 4.0], [-2.0, 6.0], None),             # sign change of one member
+    ([-2.0, 4.0], [1.0, 4.0], None),
+    ([0.0, 4.0], [-2.0, 4.0], None),
+    ([-2.0, 4.0], [-2.0, 0.0], None),            # a member reaches exactly zero
+    ([-2.0, 0.0], [-2.0, 0.0], None),
+    (None, [-2.0], None), (None, [-2.0, 4.0], None), (None, [-0.0625, 0.0625], None),
+    ([4.0], [-2.0], None), ([-2.0], [-2.0], None), ([-2.0], [-4.0], None), ([-4.0], [-2.0], None), ([-2.0], [3.0], None),
+    ([-0.0625, 0.03125], [-0.0625, 0.03125], None),   # plateau with every member below tol
+    ([7.0, 4.0, -3.0, 0.5], [7.0, 4.0, -3.0, 0.5], (2, 2)),   # 2-d batches
+    ([7.0, 8.0, -3.0, 0.5], [7.0, 4.0, -3.0, 0.5], (2, 2)),
+    ([7.0, 8.0, 3.0, 0.5], [7.0, 4.0, 3.0, 0.5], (2, 2)),
+    (None, [7.0, 4.0, -3.0, 0.5], (2, 2)),
+    ([4.0, 4.0, 4.0], [4.0, 3.0, -1.0], (3, 1)),
+]
+
+
+def rtb_apply(torch, ReduceToBason, m):
+    """put a real ReduceToBason into the state of case m, step it once, return the observed state"""
+    cfg, (steps, pc, lastv, cont), loss = m['cfg'], m['state'], m['loss']
+    dtp = torch.float32 if m.get('dtype') == 'f32' else torch.float64
+    shape = tuple(m.get('shape') or (len(loss),))
+    st = ReduceToBason(steps=cfg[0], patience=cfg[1], decreasing=cfg[2], tol=cfg[3])
+    st.steps, st.patience_count, st._continual = steps, pc, cont
+    st.last = torch.tensor(float('inf')) if lastv is None else torch.tensor(lastv, dtype=dtp).reshape(shape)
+    arg = loss[0] if m.get('pyfloat') else torch.tensor(loss, dtype=dtp).reshape(shape)
+    keep = arg.clone() if torch.is_tensor(arg) else None
+    st.step(arg)
+    if keep is not None and not torch.equal(keep, arg):
+        return ('loss argument mutated',)
+    return (st.steps, st.patience_count, [float(v) for v in torch.as_tensor(st.last).reshape(-1).tolist()], bool(st.continual()))
+
+
+# call forms of scheduler.optimize on one scheduler object
+OPT_SCENARIOS = [
+    [('optimize',)],
+    [('optimize',), ('optimize',)],
+    [('loop', None), ('optimize',)],
+    [('loop', 1), ('optimize',)],
+    [('loop', 2), ('optimize',), ('optimize',)],
+    [('optimize',), ('loop', None), ('optimize',)],
+]
+
+# model loop from an arbitrary controller state: the recorded stream must be consumed completely, end stopped, in the observed state
+SOP_DRIVE_FROM = """Definition sop_drive_from_bad (cs : list (nat * (Z * Z * Q) * (Z * Z * bool) * list (Q * Q * nat) * (nat * Z * Z))) : list nat :=
+  map (fun c => match c with (i, _, _, _, _) => i end)
+      (filter (fun c => match c with (_, (m, p, d), (s0, pc0, ct0), ins, (n, fs, fpc)) =>
+         let '(k, s) := drive_sop {| sop_max := m; sop_patience := p; sop_dec := d |} {| sop_steps := s0; sop_pc := pc0; sop_cont := ct0 |}
+                 (map (fun t => match t with (la, lo, rj) => {| in_last := la; in_loss := lo; in_reject := rj |} end) ins) in
+         negb (Nat.eqb k n && negb (sop_cont s) && Z.eqb (sop_steps s) fs && Z.eqb (sop_pc s) fpc) end) cs).
+"""
+
+
+def run_optimize_case(pp, torch, c):
+    """One scenario of user loops / scheduler.optimize calls on ONE StopOnPlateau; records what the controller saw at every step."""
+    from pypose.optim.scheduler import StopOnPlateau
+
+    class Quad(torch.nn.Module):
+        def __init__(self, x0):
+            super().__init__()
+            self.x = torch.nn.Parameter(torch.tensor(x0, dtype=torch.float64))
+
+        def forward(self, inp):
+            return (self.x ** 2 - inp)
+    model = Quad(list(c['x0']))
+    if c['optim'] == 'GN':
+        opt = pp.optim.GN(model)
+    else:
+        opt = pp.optim.LM(model, strategy=pp.optim.strategy.Constant(damping=c['damping']), reject=c['reject'])
+    cfg = c['cfg']
+    sch = StopOnPlateau(opt, steps=cfg[0], patience=cfg[1], decreasing=cfg[2])
+    sch.steps, sch.patience_count, sch._continual = c['init']
+    rec, before_opt, before_sch = [], [], []
+    ostep, sstep = opt.step, sch.step
+
+    def opt_step(*a, **k):
+        before_opt.append(bool(sch.continual()))
+        return ostep(*a, **k)
+
+    def sch_step(loss):
+        before_sch.append(bool(sch.continual()))
+        rec.append((float(opt.last), float(opt.loss), int(getattr(opt, 'reject_count', 0))))
+        return sstep(loss)
+    opt.step, sch.step = opt_step, sch_step
+    inp = torch.tensor([1.0, 2.0], dtype=torch.float64)
+    marks = []
+    for ph in c['phases']:
+        if ph[0] == 'optimize':
+            sch.optimize(input=inp)
+        else:
+            k = 0
+            while sch.continual() and (ph[1] is None or k < ph[1]):
+                sch.step(opt.step(inp))
+                k += 1
+        marks.append(len(rec))
+    return dict(stream=rec, n=len(rec), opt_calls=len(before_opt), before_opt=before_opt, before_sch=before_sch, marks=marks,
+                final=(sch.steps, sch.patience_count, bool(sch.continual())))
+
+
+def judge_optimize(c, r):
+    """the documented behaviour of a driver loop, directly: no optimizer / controller step while continual() is False; the loop
+    ends exactly at the first step with a documented cause; at most `steps` controller steps on a fresh scheduler"""
+    cfg, head = c['cfg'], 'StopOnPlateau(steps=%s,patience=%s,decreasing=%s) on %s from state (steps,patience_count,continual)=%s, call sequence %s: ' % (
+        tuple(c['cfg']) + (c['optim'], tuple(c['init']), [ph[0] if ph[0] == 'optimize' else 'user loop(%s)' % (ph[1],) for ph in c['phases']]))
+    if r['opt_calls'] != r['n']:
+        return head + '%d optimizer steps but %d controller steps' % (r['opt_calls'], r['n'])
+    for i, (bo, bs) in enumerate(zip(r['before_opt'], r['before_sch'])):
+        if not bo or not bs:
+            return head + 'step %d (of %d; the phases end after %s steps) was taken although continual() was already False' % (i + 1, r['n'], r['marks'])
+    state = tuple(c['init'])
+    for i, inp in enumerate(r['stream']):
+        if not state[2]:
+            return head + 'step %d was taken although a documented cause had stopped the controller at step %d (stream %s)' % (i + 1, i, r['stream'][:i + 1])
+        state = doc_sop(cfg, state, inp)
+    if state[2]:
+        return head + 'the loop ended after %d steps although no documented cause held (stream %s)' % (r['n'], r['stream'])
+    if tuple(r['final']) != state:
+        return head + 'final (steps,patience_count,continual)=%s, documented %s' % (tuple(r['final']), state)
+    if tuple(c['init']) == (0, 0, True) and r['n'] > max(1, cfg[0]):
+        return head + '%d controller steps exceed the budget' % r['n']
+    return None
+
+
+def _rec_stepper(torch, ReduceToBason, cfg, steps=None):
+    class Rec(ReduceToBason):
+        def __init__(self, *a, **k):
+            super().__init__(*a, **k)
+            self.rec, self.pre = [], []
+
+        def step(self, loss):
+            self.pre.append(bool(self.continual()))
+            self.rec.append([float(v) for v in torch.as_tensor(loss).reshape(-1).tolist()])
+            return super().step(loss)
+    return Rec(steps=cfg[0] if steps is None else steps, patience=cfg[1], decreasing=cfg[2], tol=cfg[3])
+
+
+def _dirty(torch, st, dirty):
+    if dirty is not None:
+        st.steps, st.patience_count, st._continual = dirty[0], dirty[1], dirty[2]
+        st.last = torch.tensor(dirty[3], dtype=torch.float64)
+
+
+def _take(st):
+    out = (st.rec, len(st.rec)) if all(st.pre) else (st.rec + [['stepped-while-stopped']], len(st.rec))
+    st.rec, st.pre = [], []
+    return out
+
+
+def run_icp_case(pp, torch, c):
+    """two ICP calls with one stepper; returns [(stream, n)] per call (the driver resets the stepper at the start of each call)"""
+    from pypose.utils.stepper import ReduceToBason
+    g = torch.Generator().manual_seed(c['gseed'])
+    src = torch.randn(1, 30, 3, generator=g, dtype=torch.float64)
+    T = pp.SE3(torch.tensor([[0.05, -0.02, 0.03, 0.0, 0.0, 0.01, 1.0]], dtype=torch.float64))
+    tgt = T.unsqueeze(-2).Act(src)
+    st = _rec_stepper(torch, ReduceToBason, c['cfg'])
+    icp = pp.module.ICP(stepper=st)
+    _dirty(torch, st, c.get('dirty'))
+    out = []
+    icp(src, tgt)
+    out.append(_take(st))
+    icp(src * 0.75 + 0.0625, tgt)
+    out.append(_take(st))
+    return out
+
+
+def run_mpc_case(pp, torch, c):
+    from pypose.utils.stepper import ReduceToBason
+    n_state, n_ctrl, Th = 2, 1, 3
+    g = torch.Generator().manual_seed(c['gseed'])
+    A = torch.eye(n_state, dtype=torch.float64) + 0.1 * torch.randn(n_state, n_state, generator=g, dtype=torch.float64)
+    B = torch.randn(n_state, n_ctrl, generator=g, dtype=torch.float64)
+    C = torch.eye(n_state, dtype=torch.float64)
+    D = torch.zeros(n_state, n_ctrl, dtype=torch.float64)
+    lti = pp.module.LTI(A, B, C, D)
+    Q = torch.tile(torch.eye(n_state + n_ctrl, dtype=torch.float64), (1, Th, 1, 1))
+    p = torch.randn(1, Th, n_state + n_ctrl, generator=g, dtype=torch.float64)
+    st = _rec_stepper(torch, ReduceToBason, c['cfg'], steps=c['steps'])
+    mpc = pp.module.MPC(lti, Q, p, Th, stepper=st)
+    _dirty(torch, st, c.get('dirty'))
+    x0 = torch.randn(1, n_state, generator=g, dtype=torch.float64)
+    x1 = torch.randn(1, n_state, generator=g, dtype=torch.float64)
+    out = []
+    mpc(1, x0)
+    out.append(_take(st))
+    mpc(1, x1)
+    out.append(_take(st))
+    return out
+
+
+def judge_rtb_drive(m):
+    """ICP / MPC reset the stepper and loop: the stream seen in one call must end exactly at the first documented cause"""
+    cfg = m['cfg']
+    head = '%s call %d with ReduceToBason(steps=%s,patience=%s,decreasing=%s,tol=%s)%s handed over in state %s: ' % (
+        m['kind'].upper(), m['call'] + 1, cfg[0], cfg[1], cfg[2], cfg[3], ' (after MPC.__init__ lowered steps by one)' if m['kind'] == 'mpc' else '', m.get('dirty'))
+    state = (0, 0, None, True)
+    for i, l in enumerate(m['stream']):
+        if l == ['stepped-while-stopped']:
+            return head + 'a controller step was taken while continual() was False (stream %s)' % (m['stream'],)
+        if not state[3]:
+            return head + 'step %d was taken although a documented cause had stopped the loop at step %d (stream %s)' % (i + 1, i, m['stream'][:i + 1])
+        state = doc_rtb(cfg, state, l)
+    if state[3]:
+        return head + 'the loop ended after %d steps although no documented cause held (stream %s)' % (m['n'], m['stream'])
+    if m['n'] > max(1, m.get('steps', cfg[0])):
+        return head + '%d controller steps exceed the budget' % m['n']
+    return None
+
+
 def replay(ctx, c):
     pp = import_pypose()
     import torch
@@ -316,15 +555,18 @@ def replay(ctx, c):
     k = c.get('kind')
     if k == 'rtb-trans':
         cfg, (steps, pc, lastv, cont), loss = c['cfg'], c['state'], c['loss']
-        st = ReduceToBason(steps=cfg[0], patience=cfg[1], decreasing=cfg[2], tol=cfg[3])
-        st.steps, st.patience_count, st._continual = steps, pc, cont
-        st.last = torch.tensor(float('inf')) if lastv is None else torch.tensor(lastv, dtype=torch.float64)
-        st.step(torch.tensor(loss, dtype=torch.float64))
-        got = (st.steps, st.patience_count, [float(v) for v in torch.as_tensor(st.last).reshape(-1).tolist()], bool(st.continual()))
+        got = rtb_apply(torch, ReduceToBason, c)
         exp = doc_rtb(cfg, (steps, pc, lastv, cont), loss)
         if got != exp:
-            return 'ReduceToBason(steps=%s,patience=%s,decreasing=%s,tol=%s) in state (steps,patience_count,last,continual)=%s stepped with loss %s gives %s; documented conditions give %s' % (cfg + ((steps, pc, lastv, cont), loss, got, exp))
+            return 'ReduceToBason(steps=%s,patience=%s,decreasing=%s,tol=%s) in state (steps,patience_count,last,continual)=%s stepped with loss %s (%s, shape %s) gives %s; documented conditions give %s' % (
+                tuple(cfg) + ((steps, pc, lastv, cont), loss, c.get('dtype', 'f64'), c.get('shape'), got, exp))
         return None
+    if k == 'optimize':
+        return judge_optimize(c, run_optimize_case(pp, torch, c))
+    if k in ('icp', 'mpc'):
+        calls = (run_icp_case if k == 'icp' else run_mpc_case)(pp, torch, c)
+        stream, n = calls[c['call']]
+        return judge_rtb_drive(dict(c, stream=stream, n=n))
     if k == 'sop-trans':
         cfg, (steps, pc, cont), (la, lo, rj) = c['cfg'], c['state'], c['inp']
 
